@@ -115,6 +115,14 @@ def check(ctx):
     ns = find("m[idx] = np.nansum(mu_discrepancy, axis=0)", cc)
     ok = len(mk) == 1 and len(ap) == 1 and len(ns) == 1 and dominates(cc, mk[0][0], ap[0][0]) and dominates(cc, ap[0][0], ns[0][0])
     ctx.ob("PAIR.corr.pairwise-mask", cc, "_cov_corr_chunk(corr=True): mu_discrepancy[df.isnull()] = nan before the nansum (pairwise-complete observations)", ok, "" if ok else "deviations of rows whose partner is NaN are summed too: off-diagonal correlations are wrong whenever NaNs are not aligned across the two columns")
+    # ---------------- round 4b (C37-m8): every cross-chunk sum of the cov/corr combine is NaN-aware
+    cc4 = ctx.model.module("dask/dataframe/core.py").func("_cov_corr_combine")
+    red4 = [c for c in ast.walk(cc4) if isinstance(c, ast.Call) and isinstance(c.func, ast.Attribute) and c.func.attr in ("sum", "nansum") and isinstance(c.func.value, ast.Name) and c.func.value.id == "np"]
+    ctx.count("cov_combine_reductions", len(red4))
+    ctx.floor("cov_combine_reductions", 3)
+    for c4 in red4:
+        ok = c4.func.attr == "nansum"
+        ctx.ob("NAN.cov-combine.nansum", c4, f"_cov_corr_combine: `{unparse(c4)[:60]}` is a nansum (an empty chunk has n2 == 0, its term is 0/0)", ok, "" if ok else "np.sum lets the NaN term of one empty partition poison the whole covariance matrix")
 
 
 VARIANTS = [
